@@ -191,6 +191,20 @@ CLAIMS = {
         technique="TLA+ spec + TLC exhaustive enumeration of requests, transitions replayed on the real tools under the virtual-time environment",
         design_ref='6/C20',
     ),
+    "C11": dict(
+        engine="sequential-specs",
+        level="model_checking",
+        text="specs/cmdline/CmdLine.tla folds an argument list like the tokenizing loop of params_from_cmd, adds the defaults and selects tests "
+             "with its own restriction matcher (',' or, '..' followed by, '.' immediately followed by) over the universe of test variants read "
+             "from the suite by the Cartesian parser alone. TLC enumerates every argument list up to the bound over a pool of "
+             "only/no/only_vmX/no_vmX/vms/nets/only_nets/K=V/malformed arguments and checks default-iff-no-primary, intersection/exclusion and "
+             "error reporting. Every final state is replayed into the real params_from_cmd and TestGraph.parse_flat_nodes: restriction "
+             "strings, vm strings, selected vms, nets, overrides, the selected tests and the propagation of every K=V into every parsed test "
+             "are compared; the matcher itself is cross-checked against the Cartesian parser",
+        note="universe and defaults of the shipped sample suite; pool of 17 (quick) / 24 (thorough) arguments, lists up to length 2 / 3",
+        technique="TLA+ spec + TLC exhaustive enumeration, every final state replayed on the implementation, three-way selection check",
+        design_ref="6/C11",
+    ),
 }
 
 NOT_YET = "machinery for this property is not built yet in this revision (see DESIGN.md section 9 build order)"
